@@ -18,6 +18,8 @@ var (
 	ErrWriteToDatapath = errors.New("write to datapath failed")
 	ErrAssocNotFound   = errors.New("no association found for NodeID")
 	ErrAllocateSession = errors.New("unable to allocate new PFCP session")
+
+	errMandatoryIEMissing = errors.New("mandatory IE missing")
 )
 
 func (pConn *PFCPConn) handleSessionEstablishmentRequest(msg message.Message) (message.Message, error) {
@@ -30,16 +32,28 @@ func (pConn *PFCPConn) handleSessionEstablishmentRequest(msg message.Message) (m
 
 	errUnmarshalReply := func(err error, offendingIE *ie.IE) (message.Message, error) {
 		// Build response message
+		ies := []*ie.IE{ie.NewCause(ie.CauseRequestRejected)}
+		if offendingIE != nil {
+			ies = append(ies, offendingIE)
+		}
+
 		pfdres := message.NewSessionEstablishmentResponse(0,
 			0,
 			0,
 			sereq.SequenceNumber,
 			0,
-			ie.NewCause(ie.CauseRequestRejected),
-			offendingIE,
+			ies...,
 		)
 
 		return pfdres, errUnmarshal(err)
+	}
+
+	if sereq.NodeID == nil {
+		return errUnmarshalReply(errMandatoryIEMissing, nil)
+	}
+
+	if sereq.CPFSEID == nil {
+		return errUnmarshalReply(errMandatoryIEMissing, nil)
 	}
 
 	nodeID, err := sereq.NodeID.NodeID()
